@@ -55,7 +55,7 @@ def run(ctx):
     import xeofs as xe
     rng = ctx.rng.child("c12").np
     specs = Z.specs()
-    classes = ["EOF", "EOF-uncentred", "ExtendedEOF", "ExtendedEOF-prereduced", "SparsePCA", "MCA", "MCA-prereduced", "CPCCA", "POP", "OPA", "EOFRotator", "MCARotator"]
+    classes = ["EOF", "EOF-uncentred", "ExtendedEOF", "ExtendedEOF-prereduced", "SparsePCA", "MCA", "MCA-prereduced", "CPCCA", "POP", "OPA", "EOFRotator", "MCARotator", "EOF-weighted", "MCA-weighted"]
     scheds = [("synchronous", dask.local.get_sync)] + ([("threads", dask.threaded.get)] if True else [])
     reps = ctx.n(1, 4)
     for rep in range(reps):
@@ -63,7 +63,7 @@ def run(ctx):
         X = Z.data2d(rng, n, p, "x", red=True)
         Y = Z.data2d(rng, n, p - 1, "y", red=True)
         for name in classes:
-            base = name.replace("Rotator", "").replace("-uncentred", "").replace("-prereduced", "")
+            base = name.replace("Rotator", "").replace("-uncentred", "").replace("-prereduced", "").replace("-weighted", "")
             sp = specs[base]
             cross = sp.kind == "cross"
             extra = dict(use_pca=False) if cross else {}
@@ -81,6 +81,18 @@ def run(ctx):
                 return m
 
             def fit(m, dx, dy, rot_compute=None):
+                if name.endswith("-weighted"):
+                    # user weights that are themselves held the way the data is held (dask-backed with dask-backed data): a cell-area field
+                    # opened lazily next to the data
+                    import xarray as xr
+                    def wts(d, q):
+                        w = xr.DataArray(0.5 + np.arange(d.sizes[q]) / d.sizes[q], dims=(q,), coords={q: d[q].values})
+                        return w.chunk({q: max(1, d.sizes[q] // 2)}) if is_lazy(d) else w
+                    if cross:
+                        m.fit(dx, dy, "time", weights_X=wts(dx, "x"), weights_Y=wts(dy, "y"))
+                    else:
+                        m.fit(dx, "time", weights=wts(dx, "x"))
+                    return m
                 m.fit(dx, dy, "time") if cross else m.fit(dx, "time")
                 if name.endswith("Rotator"):
                     rc_ = m.get_params()["compute"] if rot_compute is None else rot_compute
@@ -180,7 +192,7 @@ def run(ctx):
             ctx.oblige("correspondence:force-points", "correspondence", False, out[-500:])
         else:
             pred = C.parse_int_list((C.parse_evals(out) or [""])[0])
-            fam = {"EOF": 0, "EOF-uncentred": 0, "ExtendedEOF": 0, "ExtendedEOF-prereduced": 0, "SparsePCA": 0, "MCA": 1, "MCA-prereduced": 1, "CPCCA": 1, "EOFRotator": 2, "MCARotator": 3, "POP": 4, "OPA": 5}
+            fam = {"EOF": 0, "EOF-uncentred": 0, "ExtendedEOF": 0, "ExtendedEOF-prereduced": 0, "SparsePCA": 0, "MCA": 1, "MCA-prereduced": 1, "EOF-weighted": 0, "MCA-weighted": 1, "CPCCA": 1, "EOFRotator": 2, "MCARotator": 3, "POP": 4, "OPA": 5}
             bad = []
             for nm, obs in ctx.extra.get("lazy_calls", {}).items():
                 p_nonzero = pred[fam[nm]] > 0
